@@ -1023,10 +1023,11 @@ class VarsManager(object):
                 )
         else:
             ret = method(f2, np.array(x0), **mini_kwargs)
+        x_fit = np.array(ret.x)  # fit coordinates: dy/dx is evaluated there
         self.set_all(ret.x, val_in_fit=True)
         ret.x = np.array(self.get_all_val())
         if isinstance(ret.hess_inv, np.ndarray):
-            ret.hess_inv = self.trans_error_matrix(ret.hess_inv, ret.x)
+            ret.hess_inv = self.trans_error_matrix(ret.hess_inv, x_fit)
         else:
             ret.hess_inv = None
         return ret
@@ -1059,11 +1060,10 @@ class VarsManager(object):
                 del tape0
                 return float(y), np.array([float(i) for i in g]), np.array(hs)
 
+            # fit_result.x holds the physical values and f differentiates with
+            # respect to them: no bound transformation is due
             _, _, hess = f(fit_result.x)
-            hess_inv = np.linalg.inv(hess)
-            fit_result.hess_inv = self.trans_error_matrix(
-                hess_inv, fit_result.x
-            )
+            fit_result.hess_inv = np.linalg.inv(hess)
         x_error = np.sqrt(np.diag(fit_result.hess_inv))
         return x_error
 
